@@ -152,6 +152,24 @@ var c05Consumers = []synConsumer{
 		return err == nil
 	}, true},
 	{"Marshal(Marshaler)", func(b []byte) bool { _, err := json.Marshal(marshalerOf{b}); return err == nil }, true},
+	// TrustRawMessage is about RawMessage values: what a MarshalJSON method returns is checked all the same
+	{"Append(Marshaler,TrustRawMessage)", func(b []byte) bool {
+		_, err := json.Append(nil, marshalerOf{b}, json.TrustRawMessage|json.EscapeHTML|json.SortMapKeys)
+		return err == nil
+	}, true},
+	{"Append(struct{Marshaler;RawMessage},TrustRawMessage)", func(b []byte) bool {
+		_, err := json.Append(nil, struct {
+			M marshalerOf
+			R json.RawMessage
+		}{marshalerOf{b}, json.RawMessage(`{"ok":true}`)}, json.TrustRawMessage)
+		return err == nil
+	}, true},
+	{"Encoder.SetTrustRawMessage(true).Encode(*Marshaler)", func(b []byte) bool {
+		var w bytes.Buffer
+		e := json.NewEncoder(&w)
+		e.SetTrustRawMessage(true)
+		return e.Encode(&marshalerOf{b}) == nil
+	}, true},
 	{"Marshal(*Marshaler)", func(b []byte) bool { _, err := json.Marshal(&marshalerOf{b}); return err == nil }, true},
 	{"Unmarshal(*RawMessage)", func(b []byte) bool { var r json.RawMessage; return json.Unmarshal(b, &r) == nil }, false},
 	{"Unmarshal(*any)", func(b []byte) bool { var r any; return json.Unmarshal(b, &r) == nil }, false},
